@@ -18,6 +18,9 @@ RULE = ("cases = (layer, filter family, size, channels, bias, colour, input kind
 
 
 def run(rep):
+    if rep.tier == "thorough":
+        from .. import apalache
+        apalache.shape_lemmas(rep)
     fnd = Findings()
     c = dict(SizeSet=models.rng(2, 64 if rep.tier == "quick" else 200), CSet={1, 2, 3, 4, 5}, ExtFix=models.FIX.get("ExtFix", False))
     res = tlc.run_model("Scat", c, invariants=["StSize1", "StSize2", "StShortExact", "StChan1", "StChan2", "Bands2Cover"],
